@@ -386,6 +386,78 @@ Definition validate_entry (en : entry) est prof warn pol e s cs n i : res :=
   | OnchainHolder => onchain_holder_commitment est prof warn pol e s cs n i
   end.
 
+(** * node.rs: a channel is a stub until [setup_channel] succeeds; only then can commitments
+    be signed or validated on it.  [validate_setup_channel] runs before the ready channel
+    replaces the stub, so a refused setup leaves the stub in place.  (The refusals of
+    setup_channel in front of the validator — funding vout above 16 bits, push value above
+    the channel value — also leave the stub; they are not modelled, the generator avoids them.) *)
+
+Definition ctype_eqb (a b : ctype) : bool :=
+  match a, b with
+  | Legacy, Legacy | StaticRemoteKey, StaticRemoteKey | Anchors, Anchors
+  | AnchorsZeroFeeHtlc, AnchorsZeroFeeHtlc => true
+  | _, _ => false
+  end.
+Definition setup_eqb (a b : setup) : bool :=
+  Bool.eqb (is_outbound a) (is_outbound b) && (channel_value a =? channel_value b)
+  && (push_value_msat a =? push_value_msat b) && (holder_delay a =? holder_delay b)
+  && (cp_delay a =? cp_delay b) && ctype_eqb (commitment_type a) (commitment_type b)
+  && (shutdown a =? shutdown b).
+
+Inductive slot := Stub | Ready (s : setup).
+
+(** requests on one channel id; the enforcement and chain state a commitment request meets
+    are part of the request (they are whatever the channel holds at that point) *)
+Inductive lop :=
+| LSetup (s : setup)
+| LSignCp (e : estate) (cs : chain) (n : N) (i : cinfo)          (* sign_counterparty_commitment_tx_phase2 *)
+| LValidateHolder (e : estate) (cs : chain) (n : N) (i : cinfo). (* validate_holder_commitment_tx_phase2 *)
+
+Definition code3 (r : res) : N := match r with Ok => 0 | Panic => 1 | Err _ => 2 end.
+
+Section Lifecycle.
+  Variable est : N -> N -> trap N.
+  Variable prof : profile.
+  Variable warn : tag -> bool.
+  Variable pol : policy.
+  Variable onchain : bool.
+
+  (** answer: 0 accepted, 1 panic, 2 refused *)
+  Definition lstep (st : slot) (o : lop) : slot * N :=
+    match o with
+    | LSetup s =>
+        match st with
+        | Ready s' => (st, if setup_eqb s' s then 0 else 2)
+        | Stub =>
+            match validate_setup_channel warn pol s with
+            | Ok => (Ready s, 0)
+            | r => (Stub, code3 r)
+            end
+        end
+    | LSignCp e cs n i =>
+        match st with
+        | Stub => (st, 2)
+        | Ready s => (st, code3 (sign_counterparty est prof warn pol onchain e s cs n i))
+        end
+    | LValidateHolder e cs n i =>
+        match st with
+        | Stub => (st, 2)
+        | Ready s =>
+            (st, code3 (validate_entry (if onchain then OnchainHolder else SimpleHolder)
+                                       est prof warn pol e s cs n i))
+        end
+    end.
+
+  Fixpoint ltrace (st : slot) (ops : list lop) : list N :=
+    match ops with
+    | [] => []
+    | o :: r => let '(st1, a) := lstep st o in a :: ltrace st1 r
+    end.
+
+  Definition lrun (st : slot) (ops : list lop) : slot :=
+    fold_left (fun s o => fst (lstep s o)) ops st.
+End Lifecycle.
+
 (** * The bounds, stated mathematically (no machine arithmetic) *)
 
 Definition msum (hs : list htlc) : N := sum_N (map fst hs).
